@@ -109,10 +109,21 @@ fn rec_infos(prog: &Program) -> BTreeMap<String, RecInfo> {
 
 #[allow(clippy::too_many_arguments)]
 fn check_c_header(scratch: &Scratch, tag: &str, text: &str, prog: &Program, targets: &[&str], configs: &[usize], stats: &mut Stats, issues: &mut Vec<Issue>) {
+    check_c_header_inner(scratch, tag, text, prog, targets, configs, stats, issues);
+    std::env::remove_var("TARGET");
+}
+
+#[allow(clippy::too_many_arguments)]
+fn check_c_header_inner(scratch: &Scratch, tag: &str, text: &str, prog: &Program, targets: &[&str], configs: &[usize], stats: &mut Stats, issues: &mut Vec<Issue>) {
     let infos = rec_infos(prog);
     let hname = format!("{tag}.h");
     for t in targets {
-        let clang = vec![format!("--target={t}")];
+        // `env:<triple>`: the target reaches bindgen the way a build script passes it — the `TARGET` environment variable, no
+        // `--target` among the clang arguments
+        let via_env = t.starts_with("env:");
+        let t: &str = t.strip_prefix("env:").unwrap_or(t);
+        let clang = if via_env { vec![] } else { vec![format!("--target={t}")] };
+        if via_env { std::env::set_var("TARGET", t); *stats.by_form.entry("target-from-env-runs".into()).or_insert(0) += 1; } else { std::env::remove_var("TARGET"); }
         // oracle numbers for this target, once
         let mut exprs = vec![]; let mut keys: Vec<(String, String, String)> = vec![];
         for (rn, info) in &infos {
@@ -160,7 +171,7 @@ fn check_c_header(scratch: &Scratch, tag: &str, text: &str, prog: &Program, targ
                         expected_names.insert(c.rust_name.clone());
                         stats.items_compared += 1; stats.asserts_compared += e.len() as u64;
                         *stats.by_form.entry(if form == "const" { "const".into() } else { "test-fn".to_string() }).or_default() += 1;
-                        if stats.samples.len() < 3 && e.len() >= 4 && t != &"x86_64-unknown-linux-gnu" {
+                        if stats.samples.len() < 3 && e.len() >= 4 && t != "x86_64-unknown-linux-gnu" {
                             stats.samples.push(format!("{{\"target\":{},\"config\":{},\"request\":{},\"model\":{},\"real\":{}}}", json_str(t), json_str(cfg.0), json_str(req), json_str(ans), json_str(&format!("{:?}", g[0].iter().map(|a| (a.kind.as_str(), a.field.as_str(), a.value)).collect::<Vec<_>>()))));
                         }
                     }
@@ -373,6 +384,12 @@ fn main() {
         let targets: Vec<&str> = if thorough { TARGETS.to_vec() } else { vec![TARGETS[0], TARGETS[1 + b % (TARGETS.len() - 1)], TARGETS[1 + (b + 3) % (TARGETS.len() - 1)]] };
         let configs: Vec<usize> = if thorough { vec![0, 1, 2, 3] } else { vec![b % 2, 2 + (b + 1) % 2] };
         check_c_header(&scratch, &format!("g{b}"), &text, &prog, &targets, &configs, &mut stats, &mut issues);
+        // the first programs also with the target taken from the environment (same architecture as the host but another data
+        // model, another architecture, a 32-bit one)
+        if b < 2 {
+            let envt: Vec<&str> = if b == 0 { vec!["env:x86_64-pc-windows-msvc", "env:i686-unknown-linux-gnu"] } else { vec!["env:aarch64-unknown-linux-gnu", "env:i686-pc-windows-msvc"] };
+            check_c_header(&scratch, &format!("e{b}"), &text, &prog, &envt, &[0], &mut stats, &mut issues);
+        }
     }
     // members at offsets of 2^28 .. 2^30 bytes (2^31 .. 2^33 bits: the bit offsets libclang reports
     // no longer fit 32 bits) and records of more than 2^31 bits
